@@ -465,7 +465,7 @@ class NP:
       elif isinstance(op, ast.Add):
         term = TH.add(lt, rt)
       elif isinstance(op, ast.Mult):
-        term = TH.mul(lt, rt)
+        term = TH.sq(lt) if lt.eq(rt) else TH.mul(lt, rt)        # x * x is x ** 2 (one normal form for the two spellings)
     elif ls is not None and rt is not None:
       if isinstance(op, ast.Div):
         term = TH.sdivl(ls, rt)
